@@ -221,6 +221,8 @@ impl<'s, I: Interner, Solver: SolveDatabase<I>> Fulfill<'s, I, Solver> {
                     goal,
                 ) {
                     // the goal is too big. Record that we should return Ambiguous
+                    #[cfg(chalk_verif)]
+                    chalk_ir::verif::emit("RecTruncated", |_| {});
                     self.cannot_prove = true;
                     return;
                 }
@@ -233,6 +235,8 @@ impl<'s, I: Interner, Solver: SolveDatabase<I>> Fulfill<'s, I, Solver> {
                     goal,
                 ) {
                     // the goal is too big. Record that we should return Ambiguous
+                    #[cfg(chalk_verif)]
+                    chalk_ir::verif::emit("RecTruncated", |_| {});
                     self.cannot_prove = true;
                     return;
                 }
